@@ -11,8 +11,11 @@ import time
 VERIF = os.path.dirname(os.path.dirname(os.path.abspath(__file__)))
 REPO = os.environ.get("VERIF_REPO", "/repo")
 COQ = os.path.join(VERIF, "coq")
-GEN = os.path.join(VERIF, "gen")
-WORK = os.path.join(VERIF, "_work")
+# VERIF_REPO=<dir> runs the checks against another checkout of gleece (development only);
+# scratch directories are then kept apart from the ones used for /repo.
+_TAG = "" if REPO == "/repo" else "_" + re.sub(r"[^A-Za-z0-9]+", "_", REPO).strip("_")
+GEN = os.path.join(VERIF, "gen" + _TAG)
+WORK = os.path.join(VERIF, "_work" + _TAG)
 BIN = os.path.join(WORK, "bin")
 EVID = os.path.join(VERIF, "evidence")
 REPLAYS = os.path.join(VERIF, "replays")
@@ -64,10 +67,27 @@ def run(cmd, cwd=None, env=None, timeout=1800, input=None, check=True):
 
 # ---------------------------------------------------------------- Coq
 
+def write_coqproject():
+    files = []
+    for sub in ("Base", "Model", "Proofs", "Properties"):
+        d = os.path.join(COQ, sub)
+        if os.path.isdir(d):
+            files += sorted(os.path.join(sub, f) for f in os.listdir(d) if f.endswith(".v"))
+    text = "-Q . Gleece\n" + "\n".join(files) + "\n"
+    path = os.path.join(COQ, "_CoqProject")
+    old = open(path).read() if os.path.exists(path) else ""
+    if old != text:
+        open(path, "w").write(text)
+        return True
+    return False
+
+
 def build_coq():
     """Full .vo build of the development (no-op when up to date)."""
-    with Lock("coq"):
-        if not os.path.exists(os.path.join(COQ, "Makefile")):
+    with open(os.path.join(VERIF, ".coq.lock"), "w") as lf:
+        fcntl.flock(lf, fcntl.LOCK_EX)
+        changed = write_coqproject()
+        if changed or not os.path.exists(os.path.join(COQ, "Makefile")):
             run(["coq_makefile", "-f", "_CoqProject", "-o", "Makefile"], cwd=COQ)
         p = run(["timeout", "1500", "make", "-j16"], cwd=COQ, check=False)
         if p.returncode != 0:
@@ -157,6 +177,13 @@ def build_harness():
     with Lock("harness"):
         os.makedirs(BIN, exist_ok=True)
         h = os.path.join(VERIF, "harness")
+        if REPO != "/repo":
+            h2 = os.path.join(WORK, "harness")
+            shutil.rmtree(h2, ignore_errors=True)
+            shutil.copytree(h, h2)
+            gm = open(os.path.join(h2, "go.mod")).read().replace("=> /repo", "=> " + REPO)
+            open(os.path.join(h2, "go.mod"), "w").write(gm)
+            h = h2
         shutil.copy(os.path.join(REPO, "go.sum"), os.path.join(h, "go.sum"))
         t0 = time.time()
         p = run(["go", "build", "-tags", "verif", "-o", os.path.join(BIN, "implrun"), "./cmd/implrun"],
